@@ -82,7 +82,9 @@ CHECKS = {
              "same number of sweep events; the region/structure/provenance/consistency oracles of C01 C02 C04 C05 are evaluated on the "
              "f32 results; a general-position table rounded to f32 and an integer table whose coordinates are exact in f32 but whose "
              "differences are not are checked with single-precision tolerance; 48 near-collinear apex fans are run end to end "
-             "(f32 bit-identical to f64; failing members of the unchanged tree listed as known findings N3).",
+             "(f32 bit-identical to f64; failing members of the unchanged tree listed as known findings N3); small complexes are also run with "
+             "every coordinate multiplied by 2^-24, 2^24, 2^33 and 2^45 (f64 result == scaled result, f32 result == f64 result, bit for bit; "
+             "the scale 2^-40 on T22 single faces documents finding N4).",
         ref="DESIGN.md 5 (C10)",
         technique="bounded-exhaustive enumeration over inputs x float type on real code, differential f32/f64 oracle"),
     "C13": dict(
